@@ -1,7 +1,7 @@
 (* Props/C06Src.v — property C06 (track lifecycle), restated for the method bodies translated from the SOURCE TEXT of
    Track.get_next_event, Track.mute / unmute / nudge, Timeline.unschedule and Timeline.clear (Generated/TablesTrack.v;
    relation to the model: Sched/ModelSrc.v; reading of the data: Sched/SrcGlue.v, docs/TRANSLATOR3.md). *)
-From Isobar Require Import Base.Prelude Sched.Model Sched.TickFrame Sched.LifecycleProofs Sched.SrcGlue Generated.TablesTrack Sched.ModelSrc Sched.ModelSrcTrack Props.C06.
+From Isobar Require Import Base.Prelude Sched.Model Sched.TickFrame Sched.LifecycleProofs Sched.SrcGlue Generated.TablesTrack Sched.ModelSrc Sched.ModelSrcTrack Sched.ModelSrcSched Props.C06.
 Local Open Scope Z_scope.
 
 (* counts: StopIteration, touching nothing, once current_event_count >= max_event_count (neither None nor 0); otherwise one
@@ -59,3 +59,27 @@ Print Assumptions C06_src_mute_unmute.
 Theorem C06_src_muted : forall fail nowT tr e n, t_muted tr = true -> src_track_perform_event fail nowT tr e n = (tr, [], n, PfOk).
 Proof. intros fail nowT tr e n H. rewrite src_track_perform_event_is. apply C06_muted. exact H. Qed.
 Print Assumptions C06_src_muted.
+
+(* Timeline.schedule as translated from the source.  The refused call (track limit reached, no named track to update) raises
+   TrackLimitReached and changes nothing; schedule(name = n, replace = True) on a timeline holding a track named n updates the
+   FIRST such track in place: same tracks, same ids, no new id, count reset, unmuted, pending note-offs kept *)
+Theorem C06_src_refused : forall cfg tl s q d count rwd name replace, wf tl ->
+  named_target tl name replace = None ->
+  max_tracks cfg <> 0 -> max_tracks cfg <= Z.of_nat (length (tracks tl)) ->
+  src_timeline_schedule cfg tl s q d count rwd name replace = (tl, RTrackLimit).
+Proof. intros cfg tl s q d count rwd name replace W. rewrite (src_timeline_schedule_is cfg tl s q d count rwd name replace (proj1 W)). apply C06_refused. Qed.
+Print Assumptions C06_src_refused.
+
+Theorem C06_src_named_replace : forall cfg tl s q d count rwd name replace nm tr, wf tl ->
+  named_target tl name replace = Some (nm, tr) ->
+  let '(tl', res) := src_timeline_schedule cfg tl s q d count rwd name replace in
+  res = ROk /\ length (tracks tl') = length (tracks tl) /\ map t_id (tracks tl') = map t_id (tracks tl)
+  /\ next_id tl' = next_id tl
+  /\ exists tr', find_named nm (tracks tl') = Some tr' /\ t_id tr' = t_id tr /\ t_count tr' = 0 /\ t_muted tr' = false
+       /\ t_offs tr' = t_offs tr
+       /\ tr' = set_muted (set_count (snd (src_track_update cfg tl tr s q d count)) 0) false.
+Proof.
+  intros cfg tl s q d count rwd name replace nm tr W. rewrite (src_timeline_schedule_is cfg tl s q d count rwd name replace (proj1 W)), src_track_update_is.
+  apply C06_named_replace.
+Qed.
+Print Assumptions C06_src_named_replace.
